@@ -506,7 +506,7 @@ func init() {
 	register(&Property{
 		ID:    "C17",
 		Level: "other",
-		Rules: []Rule{{"K1", ruleK1}, {"K2", ruleK2}, {"K3", ruleK3}, {"K4", ruleK4}, {"K5", ruleK5}, {"K6", ruleK6}, {"V5", ruleV5}, {"V7", ruleV7}, {"E1h", ruleE1h}},
+		Rules: []Rule{{"K1", ruleK1}, {"K2", ruleK2}, {"K3", ruleK3}, {"K4", ruleK4}, {"K5", ruleK5}, {"K6", ruleK6}, {"V5", ruleV5}, {"V7", ruleV7}, {"E1h", ruleE1h}, {"Z4", ruleZ4}},
 		Explanation: "K1 the value bytes and value length of an item are touched only inside the three dispatch wrappers (Item.NumValBytes, Store.ItemValRead, Store.ItemValWrite); elsewhere Item.Val is only nil-tested, copied between items or returned to the user. K2 every call through a StoreCallbacks field is dominated by its nil test and the function has a default path that does not call it. K3 items are allocated only by Store.ItemAlloc (plus the documented Item.Copy and Set). K4 after a before-write / after-read hook only the hook's result is used. K5 every collection comparator stored is a defaulted parameter, a copy, or the load-time callback's result, and the loader replaces a nil comparator by bytes.Compare. K6 sizes agree: Item.NumBytes = len(Key)+NumValBytes, itemLoc.NumBytes ∈ {0, Item.NumBytes, loc.Length-16}, the new leaf carries (1, len(Key)+NumValBytes), and the encoder uses the same wrapper (C14 Y6). These are the structural reasons a behaviourally neutral callback cannot change a result; identity of all results under every callback subset (every other property re-run under configurations) is NOT decided.",
 		ControlSrc:  controlC17,
 		Expect:      []Expect{{"K1", "ZzCtlValLen"}, {"K2", "ZzCtlCallUnguarded"}, {"K3", "ZzCtlNewItem"}},
